@@ -97,8 +97,10 @@ func c13Wrapper(kind string, i int) *pb.C2SWrapper {
 	covert := "1.2.3.4:1234"
 	// kinds "u" (a transport the registrar does not know) and "p" (transport parameters that do not parse) are
 	// dual-stack requests that fail after both selections: error paths that return with the read lock taken
-	v4 := kind == "4" || kind == "d" || kind == "u" || kind == "p"
-	v6 := kind == "6" || kind == "d" || kind == "u" || kind == "p"
+	// kind "s" is a dual-stack request whose first phantom selection takes three (virtual) seconds - a registration
+	// that holds the selector for a long time, e.g. a station under memory pressure
+	v4 := kind == "4" || kind == "d" || kind == "u" || kind == "p" || kind == "s"
+	v6 := kind == "6" || kind == "d" || kind == "u" || kind == "p" || kind == "s"
 	var params *anypb.Any
 	switch kind {
 	case "u":
@@ -148,6 +150,21 @@ func which(resp *pb.RegistrationResponse) (string, string) {
 		}
 	}
 	return s4, s6
+}
+
+// c13SlowSelector is the initial selector; a request of kind "s" spends three virtual seconds in its first selection
+// (inside the registrar's read-locked section).
+type c13SlowSelector struct {
+	inner ipSelector
+	tid   map[int]bool
+}
+
+func (s *c13SlowSelector) Select(seed []byte, gen uint, libver uint, v6 bool) (*phantoms.PhantomIP, error) {
+	if t := vsched.ThreadID(); s.tid[t] {
+		delete(s.tid, t)
+		vsched.Sleep(3 * time.Second)
+	}
+	return s.inner.Select(seed, gen, libver, v6)
 }
 
 // VerifC13Main is the worker entry point.
@@ -206,7 +223,8 @@ func VerifC13Main() {
 			vh.Fatal("selector: %v", err)
 		}
 		snd := &c13Sender{}
-		p := &RegProcessor{ipSelector: sel, sock: snd, metrics: met, authenticated: false, regOverrides: nil}
+		slow := &c13SlowSelector{inner: sel, tid: map[int]bool{}}
+		p := &RegProcessor{ipSelector: slow, sock: snd, metrics: met, authenticated: false, regOverrides: nil}
 		_ = p.AddTransport(pb.TransportType_Min, min.Transport{})
 		reqs := make([]*c13Req, len(kinds))
 		for i, k := range kinds {
@@ -222,6 +240,9 @@ func VerifC13Main() {
 				vsched.GoNamed(fmt.Sprintf("req%d:%s", i, reqs[i].kind), func() {
 					defer wg.Done()
 					r := reqs[i]
+					if r.kind == "s" {
+						slow.tid[vsched.ThreadID()] = true
+					}
 					r.resp, r.err = p.RegisterBidirectional(c13Wrapper(r.kind, i), pb.RegistrationSource_BidirectionalAPI, []byte{192, 0, 2, 1})
 					r.ret = true
 				})
@@ -284,7 +305,7 @@ func VerifC13Main() {
 				if strings.HasPrefix(s4, "?") || strings.HasPrefix(s6, "?") {
 					return &vsched.Violation{Key: "address-outside-both-sets", What: fmt.Sprintf("request %d got %s %s", i, s4, s6)}
 				}
-				if r.kind == "d" && s4 != s6 {
+				if (r.kind == "d" || r.kind == "s") && s4 != s6 {
 					return &vsched.Violation{Key: "mixed-subnet-sets", What: fmt.Sprintf("request %d: v4 phantom from set %s but v6 phantom from set %s", i, s4, s6)}
 				}
 				if (r.kind != "6" && s4 == "-") || (r.kind != "4" && s6 == "-") {
@@ -311,9 +332,10 @@ func VerifC13Main() {
 			Setup: func(x *vsched.Exec) {
 				x.StateKey = func() uint64 {
 					h := p.selectorMutex.VerifState()<<1 | p.zmqMutex.VerifState() | uint64(len(snd.msgs))<<48
-					if p.ipSelector != sel {
+					if p.ipSelector != ipSelector(slow) {
 						h |= 1 << 40
 					}
+					h ^= uint64(vsched.ClockNanos()) * 0x9e3779b97f4a7c15
 					return h
 				}
 			}}
